@@ -251,6 +251,10 @@ def e2e_job(job):
             ctext = "".join(open(f).read() for f in tr.cfiles)
             out["c_flags"] = {"LOAD_DATA": ctext.count("LOAD_DATA("), "InitMemories": "InitMemories(" in ctext,
                               "InitTables": "InitTables(" in ctext, "InitGlobals": "InitGlobals(" in ctext}
+            fe = re.search(r"wasmFuncExport \w+FuncExports\[(\d+)\] = \{\n(.*?)\n\};\n", ctext, re.S)
+            if fe:          # the emitted name table: declared size and, per written row, the function expression (`f<k>`, import name; NULL row = None)
+                rows_ = [re.fullmatch(r"\{(?:\(wasmFunc\)(\w+),.*|NULL,NULL)\},?", ln.strip()) for ln in fe.group(2).split("\n")]
+                out["func_exports_text"] = {"declared": int(fe.group(1)), "rows": [(r_.group(1) if r_ else "?") for r_ in rows_], "module": tr.name}
         try:
             base = None
             rrs = []
@@ -276,6 +280,16 @@ def e2e_job(job):
                     exp = e2e.expected_table(m, imp)
                     if exp is not None and exp != rr.table:
                         ent.setdefault("init_diffs", []).append({"kind": "table", "real": rr.table, "spec": exp})
+                if rr.instantiate and rr.instantiate[0] in ("ok", "trap") and rr.func_exports != "absent":
+                    # the name table <module>FuncExports (instance.common.funcExports) = every function export, in export order, once,
+                    # then the {NULL, NULL} row (names containing a NUL byte cannot be read back from a C string: skipped)
+                    want = e2e.expected_func_exports(m)
+                    if not any(b"\x00" in bytes.fromhex(x[1]) for x in want):
+                        got = rr.func_exports
+                        ok = got is not None and got["terminated"] and len(got["rows"]) == len(want) and all(
+                            g[1] == w_[1] and (g[0] == w_[0] or _same_c_function(m, g[0], w_[0])) for g, w_ in zip(got["rows"], want))
+                        if not ok:
+                            ent.setdefault("init_diffs", []).append({"kind": "func-exports-table", "real": got, "spec": want})
                 if any(v is False for v in rr.bound.values()):
                     ent.setdefault("init_diffs", []).append({"kind": "import-not-bound", "real": rr.bound})
                 if rr.mem_accessor_ok is False:
@@ -299,6 +313,12 @@ def e2e_job(job):
         out["error"] = "%s: %s" % (type(ex).__name__, ex)
     out["wall"] = round(time.time() - t0, 3)
     return out
+
+
+def _same_c_function(m, f, g):
+    """function indices f, g denote imports of the same (module, field): one C function"""
+    imps = [i for i in m.imports if i.kind == "func"]
+    return f < len(imps) and g < len(imps) and (bytes(imps[f].module), bytes(imps[f].field)) == (bytes(imps[g].module), bytes(imps[g].field))
 
 
 def shape_of(m):
